@@ -112,6 +112,20 @@ def step_cases():
                             yield {"sub": "steps", "engine": engine, "script": sc2, "dt": dt, "t_max": tmax}
 
 
+def reset_cases():
+    """The end time left to its documented default (the last requested time) and the request list replaced on the script
+    object after construction: the run ends at the last time of the list in force."""
+    for engine in ("euler", "tauleap"):
+        for gtype in ("grid", "graph"):
+            for first, second in (([0, 0.5], [0, 0.25, 2.0]), ([0, 2.0], [0, 0.5]), ([0, 1.0], [0, 1.0, 1.75]), ([0.5], [0.25])):
+                sc = lc.script_spec((engine, gtype), "a")
+                sc["time_step"] = 0.25
+                sc.pop("t_max", None)
+                sc["policy"] = "on_t_sample"
+                sc["t_sample"] = list(first)
+                yield {"sub": "steps", "engine": engine, "script": sc, "dt": 0.25, "t_max": second[-1], "reset_t_sample": list(second)}
+
+
 def check_factory(case):
     """Two calls of one engine factory of engine_collection give two engine OBJECTS whose own status does not follow
     the other one's set-up (the native library is redirected to the fresh build; the factory itself is the library's)."""
@@ -158,6 +172,8 @@ def check_simple(case):
         return check_factory(case)[0]
     try:
         script = models.build_script(case["script"])
+        if case.get("reset_t_sample"):
+            script.t_sample = list(case["reset_t_sample"])
         e = eng.make_engine(case["engine"], VARIANT)
         e.setup(script)
         if e.is_complete():
@@ -323,9 +339,9 @@ def build_jobs(tier, seed0, d1=None, d2=None, two=True, dlm=None, light=False):
                                                                        ("tauleap_engine", "tauleap"), ("gillespie_engine", "gillespie"))]
     jobs += [("simple", c) for c in fcs]
     subs.append(("engine factories of engine_collection: two calls give two objects with their own status (4 factories)", len(fcs), len(fcs)))
-    stc = list(step_cases())
+    stc = list(step_cases()) + list(reset_cases())
     jobs += [("simple", c) for c in stc]
-    subs.append(("fixed-step completion count: 3 dt x 8 t_max x 4 time scales (1, 2^-40, 1e-10, 1e6; scale 1 also with step and end time written in ms) x 2 engines x {grid,graph}", len(stc), len(stc)))
+    subs.append(("fixed-step completion count: 3 dt x 8 t_max x 4 time scales (1, 2^-40, 1e-10, 1e6; scale 1 also with step and end time written in ms) x 2 engines x {grid,graph}; + default end time with the request list replaced after construction (4 list pairs)", len(stc), len(stc)))
     return jobs, subs
 
 
